@@ -121,12 +121,12 @@ theorem tdout_step : ∀ (cfg : Cfg) (s : St) (a : Act), TdOut s →
   obtain ⟨htd, h1, h2⟩ := h
   (try simp only at htd h1 h2); subst htd
   cases a with
-  | c x => cases x <;> simp only [step, ctl] <;> (try split) <;> simp_all [TdOut, countSteps, isStep, List.filter]
-  | fin => simp only [step, fin]; split <;> simp_all [TdOut, countSteps, isStep, List.filter]
-  | spur => simp only [step]; split <;> simp_all [TdOut, countSteps, isStep, List.filter]
+  | c x => cases x <;> simp only [step, ctl] <;> (try split) <;> simp_all [TdOut, countSteps, isStep]
+  | fin => simp only [step, fin]; split <;> simp_all [TdOut, countSteps, isStep]
+  | spur => simp only [step]; split <;> simp_all [TdOut, countSteps, isStep]
   | t b =>
     cases pc <;> simp only [step, thr] <;> (repeat' split) <;>
-      simp_all [Option.getD, TdOut, countSteps, isStep, List.filter]
+      simp_all [Option.getD, TdOut, countSteps, isStep]
 
 theorem tdout_exec (cfg : Cfg) (as : List Act) : ∀ s : St, TdOut s →
     countSteps (exec cfg s as).hist = countSteps s.hist := by
